@@ -4,6 +4,7 @@ import (
 	"crypto/tls"
 	"fmt"
 	"net"
+	"os"
 	"runtime"
 	"strings"
 	"sync"
@@ -63,6 +64,9 @@ func c12One(c *Ctx, r *Rand, idx int) {
 		state = pick(r, []string{"storm", "parked", "slow-onclose", "teardown", "idle", "parked+slow-onclose", "storm+parked", "tls-teardown", "parked-hangup", "parked-unbind", "parked-beyond-read-timeout", "half-closed-before-stop", "unbind-held", "tls-parked", "onclose-running-at-stop"})
 	}
 	second := pick(r, []string{"no", "concurrent", "later"})
+	if v := os.Getenv("VERIF_C12_STATE"); v != "" {
+		order, state = "after-ready", v // (development aid: every run in one state; the result is then inconclusive)
+	}
 	var inflight, onclosing atomic.Int64
 	var lastEvent atomic.Int64 // stamp of the latest handler exit / OnClose enter / OnClose exit
 	var seenMu sync.Mutex
@@ -501,7 +505,8 @@ func c12One(c *Ctx, r *Rand, idx int) {
 			c.Violate("Stop returned an error", err.Error(), det)
 		}
 	case <-time.After(patience):
-		c.Inconclusive(fmt.Sprintf("Stop did not return (order %s state %s): see C11", order, state))
+		c.Skip(fmt.Sprintf("Stop did not return within %s (order %s state %s): whether it ever does is C11's question; this run has no fence to judge", patience, order, state))
+		c.Note("goroutines_when_stop_had_not_returned", trimDump(gldapGoroutines(), 8))
 		ok = false
 	}
 	var runErr error
